@@ -14,52 +14,53 @@ open WireOnK QEntry
 
 variable (cfg : WireCfg ℚ) (losses delays : List ℚ)
 
-/-- **one kernel step, seen on configurations**: the agenda entry `q` is processed; `outs` leave the wire -/
-inductive AStep : A → QEntry ℚ → A → List (Int × ℚ) → Prop
+/-- **one kernel step, seen on configurations**: the agenda entry `q` is processed; `outs` are forwarded; `lf` = the ids of
+the packets that leave the wire in this step, forwarded or dropped -/
+inductive AStep : A → QEntry ℚ → A → List (Int × ℚ) → List Int → Prop
   | wireInit (a : A) (q : QEntry ℚ) (g : EvId) (h : a.wire = .init q) :
-      AStep a q { a with wire := .W g q.time 0 0 } []
+      AStep a q { a with wire := .W g q.time 0 0 } [] []
   | srcInitEnd (a : A) (q q' : QEntry ℚ) (h : a.src = .init q []) (ht : q'.time = q.time) (hp : q'.prio = NORMAL) :
-      AStep a q { a with src := .ending q' } []
+      AStep a q { a with src := .ending q' } [] []
   | srcInitWait (a : A) (q q' : QEntry ℚ) (gap : ℚ) (rest : List ℚ)
       (h : a.src = .init q (gap :: rest)) (ht : q'.time = q.time + gap) (hp : q'.prio = NORMAL) :
-      AStep a q { a with src := .wait 0 rest q' } []
+      AStep a q { a with src := .wait 0 rest q' } [] []
   | srcPutEnd (a : A) (q u q' : QEntry ℚ) (next : Nat) (h : a.src = .wait next [] q) (hn : a.pend = none)
       (hu : u.time = q.time ∧ u.prio = NORMAL) (ht : q'.time = q.time ∧ q'.prio = NORMAL) :
-      AStep a q { a with src := .ending q', pend := some u, items := a.items ++ [(next : Int)], cts := a.cts ++ [q.time] } []
+      AStep a q { a with src := .ending q', pend := some u, items := a.items ++ [(next : Int)], cts := a.cts ++ [q.time] } [] []
   | srcPutWait (a : A) (q u q' : QEntry ℚ) (next : Nat) (gap : ℚ) (rest : List ℚ)
       (h : a.src = .wait next (gap :: rest) q) (hn : a.pend = none)
       (hu : u.time = q.time ∧ u.prio = NORMAL) (ht : q'.time = q.time + gap ∧ q'.prio = NORMAL) (ho : u.eid < q'.eid) :
       AStep a q { a with src := .wait (next + 1) rest q', pend := some u, items := a.items ++ [(next : Int)],
-                         cts := a.cts ++ [q.time] } []
+                         cts := a.cts ++ [q.time] } [] []
   | putIdle (a : A) (q : QEntry ℚ) (h : a.pend = some q) (hw : a.wire.getQ = [] ∨ a.items = []) :
-      AStep a q { a with pend := none } []
+      AStep a q { a with pend := none } [] []
   | putHand (a : A) (q q' : QEntry ℚ) (g : EvId) (t0 : ℚ) (nl nd : Nat) (i : Int) (is : List Int) (h : a.pend = some q)
       (hw : a.wire = .W g t0 nl nd) (hi : a.items = i :: is) (ht : q'.time = q.time ∧ q'.prio = NORMAL) :
-      AStep a q { a with pend := none, wire := .H g i q' t0 nl nd, items := is } []
+      AStep a q { a with pend := none, wire := .H g i q' t0 nl nd, items := is } [] []
   | serveLostIdle (a : A) (q : QEntry ℚ) (g g' : EvId) (id : Int) (t0 : ℚ) (nl nd : Nat) (h : a.wire = .H g id q t0 nl nd)
       (hl : isLost cfg (draw losses nl) = true) (hi : a.items = []) :
-      AStep a q { a with wire := .W g' q.time (nlNext cfg nl) nd } []
+      AStep a q { a with wire := .W g' q.time (nlNext cfg nl) nd } [] [id]
   | serveLostNext (a : A) (q q' : QEntry ℚ) (g g' : EvId) (id : Int) (t0 : ℚ) (nl nd : Nat) (i : Int) (is : List Int)
       (h : a.wire = .H g id q t0 nl nd) (hl : isLost cfg (draw losses nl) = true) (hi : a.items = i :: is)
       (ht : q'.time = q.time ∧ q'.prio = NORMAL) :
-      AStep a q { a with wire := .H g' i q' q.time (nlNext cfg nl) nd, items := is } []
+      AStep a q { a with wire := .H g' i q' q.time (nlNext cfg nl) nd, items := is } [] [id]
   | serveWait (a : A) (q q' : QEntry ℚ) (g t : EvId) (id : Int) (t0 : ℚ) (nl nd : Nat) (h : a.wire = .H g id q t0 nl nd)
       (hl : isLost cfg (draw losses nl) = false) (hw : q.time - a.ctOf id < draw delays nd)
       (ht : q'.time = q.time + (draw delays nd - (q.time - a.ctOf id)) ∧ q'.prio = NORMAL) :
-      AStep a q { a with wire := .T t id q' (nlNext cfg nl) (nd + 1) } []
+      AStep a q { a with wire := .T t id q' (nlNext cfg nl) (nd + 1) } [] []
   | serveOutIdle (a : A) (q : QEntry ℚ) (g g' : EvId) (id : Int) (t0 : ℚ) (nl nd : Nat) (h : a.wire = .H g id q t0 nl nd)
       (hl : isLost cfg (draw losses nl) = false) (hw : ¬ q.time - a.ctOf id < draw delays nd) (hi : a.items = []) :
-      AStep a q { a with wire := .W g' q.time (nlNext cfg nl) (nd + 1) } [(id, q.time)]
+      AStep a q { a with wire := .W g' q.time (nlNext cfg nl) (nd + 1) } [(id, q.time)] [id]
   | serveOutNext (a : A) (q q' : QEntry ℚ) (g g' : EvId) (id : Int) (t0 : ℚ) (nl nd : Nat) (i : Int) (is : List Int)
       (h : a.wire = .H g id q t0 nl nd) (hl : isLost cfg (draw losses nl) = false)
       (hw : ¬ q.time - a.ctOf id < draw delays nd) (hi : a.items = i :: is) (ht : q'.time = q.time ∧ q'.prio = NORMAL) :
-      AStep a q { a with wire := .H g' i q' q.time (nlNext cfg nl) (nd + 1), items := is } [(id, q.time)]
+      AStep a q { a with wire := .H g' i q' q.time (nlNext cfg nl) (nd + 1), items := is } [(id, q.time)] [id]
   | fireIdle (a : A) (q : QEntry ℚ) (t g : EvId) (id : Int) (nl nd : Nat) (h : a.wire = .T t id q nl nd) (hi : a.items = []) :
-      AStep a q { a with wire := .W g q.time nl nd } [(id, q.time)]
+      AStep a q { a with wire := .W g q.time nl nd } [(id, q.time)] [id]
   | fireNext (a : A) (q q' : QEntry ℚ) (t g : EvId) (id : Int) (nl nd : Nat) (i : Int) (is : List Int)
       (h : a.wire = .T t id q nl nd) (hi : a.items = i :: is) (ht : q'.time = q.time ∧ q'.prio = NORMAL) :
-      AStep a q { a with wire := .H g i q' q.time nl nd, items := is } [(id, q.time)]
-  | srcEnd (a : A) (q : QEntry ℚ) (h : a.src = .ending q) : AStep a q { a with src := .done } []
+      AStep a q { a with wire := .H g i q' q.time nl nd, items := is } [(id, q.time)] [id]
+  | srcEnd (a : A) (q : QEntry ℚ) (h : a.src = .ending q) : AStep a q { a with src := .done } [] []
 
 variable {cfg losses delays}
 
